@@ -164,6 +164,10 @@ public:
         bytestringref_map_.clear();
         next_stringref_ = 0;
         nesting_depth_ = 0;
+        if (pack_strings_)
+        {
+            write_tag(256); // as on construction: the next value opens a new stringref namespace
+        }
     }
 
     void reset(Sink&& sink)
